@@ -162,9 +162,9 @@ def check_conc(prop, tier):
 
         # 4. implementation -> specification: schedules of the real code chosen by the harness
         hs2 = []
-        nrand = 6 if tier == "quick" else 40
+        nrand = 6 if tier == "quick" else 15
         for i, sc in enumerate(scs):
-            hs2.append(scen.harness_level_scenario(sc, {"mode": "dfs", "pb": 2 if tier == "quick" else 3, "max": 40 if tier == "quick" else 400}))
+            hs2.append(scen.harness_level_scenario(sc, {"mode": "dfs", "pb": 2 if tier == "quick" else 3, "max": 40 if tier == "quick" else 120}))
             hs2.append(scen.harness_level_scenario(sc, {"mode": "pct", "seed": seed() * 1000 + i, "runs": nrand, "d": 3}))
             hs2.append(scen.harness_level_scenario(sc, {"mode": "starve"}))
         h2 = run_harness("level", hs2, work, "tv", timeout=3000)
